@@ -226,7 +226,66 @@ def cases(tier, seed):
                         "kind": "opts", "shape": list(s), "mode": m,
                         "sp": sp, "tier": tier, "full_combos": fullc,
                         "_cost": (len(fullc) + 1) * n + 120})
+    # ---- histories (added by the lead): propagations that differ only in
+    # one optical / geometric quantity, issued in one interpreter; each must
+    # equal the same call in a pristine interpreter (a transfer function
+    # remembered under a key that omits one of these would show here)
+    from lib import fork_call
+    refs = {}
+    for name in HOPS:
+        st, val = fork_call(_hop, name)
+        refs[name] = val if st == "ok" else "FAILED:%s:%r" % (st, val)
+    L = 2 if q else 3
+    import itertools as _it
+    for n in range(1, L + 1):
+        for seq in _it.product(list(HOPS), repeat=n):
+            out.append({"id": "hist:" + ">".join(seq), "kind": "history",
+                        "seq": list(seq), "tier": tier, "_cost": 5 * n,
+                        "ref": {o: refs[o] for o in seq}})
     return _balance(out)
+
+
+HOPS = {  # name -> (shape, spacing, medium index, wavelength, d, cfsp, gf)
+    "base": ((6, 5), 0.3, 1.33, 0.532, 2.0, 0, False),
+    "medium": ((6, 5), 0.3, 1.0, 0.532, 2.0, 0, False),
+    "wavelength": ((6, 5), 0.3, 1.33, 0.405, 2.0, 0, False),
+    "distance": ((6, 5), 0.3, 1.33, 0.532, 2.5, 0, False),
+    "spacing": ((6, 5), 0.25, 1.33, 0.532, 2.0, 0, False),
+    "shape": ((5, 6), 0.3, 1.33, 0.532, 2.0, 0, False),
+    "cfsp": ((6, 5), 0.3, 1.33, 0.532, 2.0, 2, False),
+    "list": ((6, 5), 0.3, 1.33, 0.532, [2.0, 0, -1.0], 0, False),
+}
+
+
+def _hop(name):
+    import holopy as hp
+    from holopy.core.metadata import data_grid
+    shape, sp, nm, wl, d, cfsp, gf = HOPS[name]
+    i, j = np.mgrid[0:shape[0], 0:shape[1]].astype(float)
+    v = np.cos(0.7 * i + 0.2) + 1j * np.sin(0.4 * j * i + 0.1) + 0.05 * j
+    im = data_grid(v, spacing=sp, medium_index=nm, illum_wavelen=wl)
+    r = hp.propagate(im, d, cfsp=cfsp, gradient_filter=gf)
+    r = r.transpose(*sorted(r.dims))
+    return digest(np.ascontiguousarray(r.values),
+                  [list(map(float, r[c].values)) for c in sorted(r.dims)])
+
+
+def _run_history(case, ck):
+    outs = []
+    for i, name in enumerate(case["seq"]):
+        ref = case["ref"][name]
+        if str(ref).startswith("FAILED"):
+            _fail(ck, "pristine-reference", "%s failed in a pristine "
+                  "interpreter: %s" % (name, ref))
+            return "ref-failed", {}
+        got = _hop(name)
+        ck.trans += 1
+        if got != ref:
+            _fail(ck, "history-independent", "step %d (%s) of %s gives a "
+                  "different result than the same call in a pristine "
+                  "interpreter" % (i + 1, name, ">".join(case["seq"])))
+        outs.append(got)
+    return digest(*outs), {}
 
 
 def _balance(cs, width=16):
@@ -963,7 +1022,8 @@ def _run_opts(case, ck):
     return digest(*cx.acc), cx.info
 
 
-_KINDS = {"fftinv": _run_fftinv, "noshift": _run_noshift, "group": _run_group,
+_KINDS = {"history": _run_history,
+          "fftinv": _run_fftinv, "noshift": _run_noshift, "group": _run_group,
           "linear": _run_linear, "list": _run_list, "opts": _run_opts}
 
 
